@@ -165,6 +165,8 @@ func (s *Session) startTLS() bool {
 		cert = tm.Untrusted
 	}
 	tc := &tls.Config{Certificates: []tls.Certificate{cert}, MinVersion: tls.VersionTLS12}
+	// one ticket key for all connections of the server: a client that keeps sessions resumes
+	tc.SetSessionTicketKeys([][32]byte{{'s', 'i', 'm', '-', 't', 'i', 'c', 'k', 'e', 't', '-', 'k', 'e', 'y'}})
 	switch cfg.Version {
 	case "1.2":
 		tc.MaxVersion = tls.VersionTLS12
@@ -182,6 +184,10 @@ func (s *Session) startTLS() bool {
 	s.TLS = true
 	s.TLSState = &st
 	s.helloed, s.esmtp, s.ext, s.tx = false, false, nil, nil
-	s.ev(Event{Kind: "tls", Text: "handshake ok", Line: tls.VersionName(st.Version)})
+	how := "handshake ok"
+	if st.DidResume {
+		how = "handshake ok (session resumed)"
+	}
+	s.ev(Event{Kind: "tls", Text: how, Line: tls.VersionName(st.Version)})
 	return true
 }
